@@ -176,6 +176,14 @@ func (w *World) openEngine() error {
 	return nil
 }
 
+// closeEngineKeep closes the engine but keeps the pointer, so that later calls hit the closed engine.
+func (w *World) closeEngineKeep() error {
+	if w.E == nil {
+		return nil
+	}
+	return w.E.Close()
+}
+
 func (w *World) closeEngine() error {
 	if w.E == nil {
 		return nil
@@ -189,8 +197,10 @@ func (w *World) closeEngine() error {
 
 // exec applies op to the engine. It returns the operation's error (nil = accepted)
 // and an auxiliary output (new id for evolve).
-func (w *World) exec(op Op) (err error, out string) {
-	e := w.E
+func (w *World) exec(op Op) (err error, out string) { return w.execOn(w.E, op) }
+
+// execOn applies op to engine e (concurrent tasks capture the engine pointer once).
+func (w *World) execOn(e *engine.Engine, op Op) (err error, out string) {
 	switch op.K {
 	case "kvset":
 		return e.KVSet(op.Key, []byte(op.Val)), ""
